@@ -43,7 +43,7 @@ Methods ==
        auto |-> {"request_id", "opt_request_id"}],
     \* overlapping signatures (the second omits a field of the first), and a repeated google.protobuf.Value field
     [name |-> "TouchThing",  cs |-> FALSE, ss |-> FALSE, void |-> FALSE, dep |-> FALSE,
-       flat |-> FlatOf(<< <<"name", "tags", "count">>, <<"name", "count">>, <<"vals">> >>), auto |-> {}],
+       flat |-> FlatOf(<< <<>>, <<"name", "tags", "count">>, <<"name", "count">>, <<"vals">> >>), auto |-> {}],   \* the first signature is empty
     [name |-> "PlainThing",  cs |-> FALSE, ss |-> FALSE, void |-> FALSE, dep |-> FALSE, flat |-> <<>>, auto |-> {}],
     \* replies with the API's own message named Empty (it has fields): void means google.protobuf.Empty, nothing else
     [name |-> "NullThing",   cs |-> FALSE, ss |-> FALSE, void |-> FALSE, dep |-> FALSE, flat |-> <<>>, auto |-> {}],
